@@ -217,10 +217,12 @@ func smallPC(pc uint64) int {
 
 // endEvent: the end of a frame; cf = it is a creation frame, rl = length of the data it returns (the code to deposit);
 // op = the opcode it ended at, x = the opcode was being executed (an error: raised by the operation itself, not by the
-// checks before it)
+// checks before it); cs = (creation frames that RETURN) the code store already holds the very bytes the frame returns as
+// its code - a fact about the store, read from the store: the code of the new contract is then loadable by its hash
+// whatever becomes of the account's own copy
 func (t *frameTracer) endEvent(k, to, ctx string, g, c uint64, depth int, m string, rl int, op vm.OpCode, x bool, pc uint64) obsEvent {
 	e := mkEvent("end", k, to, ctx, 0, "", g, c, depth-1, m)
-	e["rl"], e["cf"] = rl, t.kindAt[depth] == "create"
+	e["rl"], e["cf"], e["cs"] = rl, t.kindAt[depth] == "create", false
 	e["op"], e["x"], e["pc"] = op.String(), x, smallPC(pc)
 	return e
 }
@@ -234,6 +236,7 @@ type frameTracer struct {
 	nops     int
 	full     bool // record the event list (tree programs); otherwise only depth / op count / touched accounts
 	lbase    int  // length of the short code images (classification of jumps)
+	stored   func(code []byte) bool // the code store holds these bytes (nil: not asked)
 	touched  map[common.Address]map[common.Hash]bool
 }
 
@@ -348,7 +351,15 @@ func (t *frameTracer) CaptureState(env *vm.EVM, pc uint64, op vm.OpCode, gas, co
 	case op == vm.STOP:
 		t.evs = append(t.evs, t.endEvent("stop", "", ctx, gas, cost, depth, "", 0, op, false, pc))
 	case op == vm.RETURN:
-		t.evs = append(t.evs, t.endEvent("stop", "", ctx, gas, cost, depth, "", smallInt(stack.Back(1)), op, false, pc))
+		e := t.endEvent("stop", "", ctx, gas, cost, depth, "", smallInt(stack.Back(1)), op, false, pc)
+		if off, n := stack.Back(0), stack.Back(1); t.kindAt[depth] == "create" && t.stored != nil && off.IsUint64() && n.IsUint64() && n.Uint64() > 0 && n.Uint64() <= maxCodeSize {
+			buf := make([]byte, n.Uint64())
+			if d := memory.Data(); off.Uint64() < uint64(len(d)) {
+				copy(buf, d[off.Uint64():])
+			}
+			e["cs"] = t.stored(buf)
+		}
+		t.evs = append(t.evs, e)
 	case op == vm.SELFDESTRUCT:
 		t.evs = append(t.evs, t.endEvent("suicide", nameOfAddr(common.BigToAddress(stack.Back(0))), ctx, gas, cost, depth, "", 0, op, false, pc))
 	}
@@ -410,6 +421,10 @@ func (w *world) exec(base common.Hash, kind string, to common.Address, input []b
 	am := account.NewManager(base, w.db)
 	tr := newTracer(full)
 	tr.lbase = w.lbase
+	tr.stored = func(code []byte) bool {
+		c, err := w.db.GetContractCode(crypto.Keccak256Hash(code))
+		return err == nil && len(c) > 0
+	}
 	evm := newEVM(am, tr)
 	res = &runResult{Gas: gas}
 	toName := nameOfAddr(to)
